@@ -28,6 +28,13 @@ try:
     d1 = subprocess.run(['/venv/bin/python', '-W', 'ignore', os.path.join(src, 'demo.py')], cwd=wt, env=env, capture_output=True, text=True, timeout=600)
     meta['demo_with_patch_exit'] = d1.returncode
     meta['demo_with_patch_tail'] = (d1.stdout + d1.stderr)[-400:]
+    # our checks against the patched scratch tree (VERIF_REPO), /repo itself is not touched
+    checks = (a.checks.split(',') if a.checks else [a.prop])
+    caught = {}
+    for c in checks:
+        o = sh('cd /verif && VERIF_REPO=%s ./check %s --tier quick' % (wt, c))
+        sigs = [l.strip()[4:] for l in o.stdout.split('\n') if l.strip().startswith('sig=')]
+        caught[c] = dict(exit=o.returncode, violations=o.stdout.count('\nVIOLATION') + (1 if o.stdout.startswith('VIOLATION') else 0), first_signatures=sigs[:3])
     sh('git -C %s checkout -- .' % wt)
     d0 = subprocess.run(['/venv/bin/python', '-W', 'ignore', os.path.join(src, 'demo.py')], cwd=wt, env=env, capture_output=True, text=True, timeout=600)
     meta['demo_without_patch_exit'] = d0.returncode
@@ -36,24 +43,12 @@ finally:
     sh('git -C /repo worktree remove --force %s' % wt)
 ok = '228 passed' in meta['tests_with_patch'] and meta['demo_with_patch_exit'] != 0 and meta['demo_without_patch_exit'] == 0
 meta['confirmed'] = ok
-# run our checks against it
-checks = (a.checks.split(',') if a.checks else [a.prop])
-caught = {}
-assert sh('git -C /repo status --short').stdout.strip() == '', 'repo dirty'
-r = sh('git -C /repo apply %s' % patch)
-try:
-    for c in checks:
-        o = sh('cd /verif && ./check %s --tier quick' % c)
-        sigs = [l.strip()[4:] for l in o.stdout.split('\n') if l.strip().startswith('sig=')]
-        caught[c] = dict(exit=o.returncode, violations=o.stdout.count('\nVIOLATION') + (1 if o.stdout.startswith('VIOLATION') else 0), first_signatures=sigs[:3])
-finally:
-    sh('git -C /repo checkout -- .')
 meta['checks_run'] = caught
 meta['caught_by'] = [c for c, v in caught.items() if v['exit'] == 1]
 readme = open(os.path.join(src, 'README.md')).read() if os.path.exists(os.path.join(src, 'README.md')) else ''
 meta['needs_to_manifest'] = readme[:1500]
 meta['what_was_run'] = ['git worktree add (scratch, /repo HEAD)', 'git apply patch.diff', 'tools/rtests.sh <worktree> (228 tests)',
-                        'demo.py with and without the patch (PYTHONPATH=<worktree>)', 'git -C /repo apply; ./check <ids> --tier quick; git -C /repo checkout -- .']
+                        'demo.py with and without the patch (PYTHONPATH=<worktree>)', 'VERIF_REPO=<patched worktree> ./check <ids> --tier quick (the checks import the patched tree; /repo untouched)']
 dst = '/verif/seeded/' + sid
 if ok:
     os.makedirs(dst, exist_ok=True)
